@@ -348,6 +348,8 @@ def run(F, R, tier, M=None):
     # ---- I allocation -------------------------------------------------------------------------------------
     R.rule("I", "raw new only in the C constructors, delete only in the C free functions", 5)
     for k, f in sorted(F.functions.items()):
+        if k in F.superseded:
+            continue        # a file-local helper used only by C entry points: judged where it is inlined
         for n in walk(f["body"]):
             if n.get("k") == "CXXNewExpr":
                 ok = f.get("externC") and re.search(r"_new(_with_\w+)?$", f["name"]) and not n.get("array")
